@@ -53,6 +53,7 @@ func genBody(g G, o InboundOpts) string {
 func GenInbound(g G, n int, o InboundOpts) []InEl {
 	var out []InEl
 	var off int64
+	nextResult := 0
 	for i := 0; i < n; i++ {
 		id := fmt.Sprintf("%s%d", o.IDPrefix, i+1)
 		var el InEl
@@ -113,6 +114,11 @@ func GenInbound(g G, n int, o InboundOpts) []InEl {
 				payload = []string{"", "<query xmlns='jabber:iq:version'><name>n</name></query>", "<unknown xmlns='x:y'/>"}[g.N("iqp", 3)]
 			case "error":
 				payload = "<error type='cancel'><service-unavailable xmlns='" + nsStanzas + "'/></error>"
+			}
+			if (typ == "result" || typ == "error") && nextResult < len(o.ResultIDs) && g.Pct("answers-pending-request", 70) {
+				// the answer to a request the application has pending
+				id = o.ResultIDs[nextResult]
+				nextResult++
 			}
 			el = InEl{Kind: "iq", ID: id, Type: typ, Stanza: true,
 				Raw: fmt.Sprintf("<iq id='%s' type='%s' from='%s' to='test@%s/res'>%s</iq>", id, typ, SimDomain, SimDomain, payload)}
